@@ -340,7 +340,7 @@ def main(tier, seed):
     files = ['beartype/_conf/confmain.py', 'beartype/_conf/conftest.py', 'beartype/_conf/_confoverrides.py', 'beartype/_conf/_confget.py']
     rep.functions = ['beartype/_conf/confmain.py:BeartypeConf.__new__', 'beartype/_conf/confmain.py:BeartypeConf.__eq__', 'beartype/_conf/confmain.py:BeartypeConf.__hash__',
                      'beartype/_conf/conftest.py:default_conf_kwargs (inlined)', 'beartype/_conf/conftest.py:die_if_conf_kwargs_invalid (inlined)', 'beartype/_conf/conftest.py:sanify_conf_kwargs (inlined)',
-                     'beartype/_util/cls/utilclstest.py:is_type_subclass (inlined)', '18 option properties (structural)'] + [f'{p}@{report.src_hash(p)}' for p in files]
+                     'beartype/_util/cls/utilclstest.py:is_type_subclass (inlined)', '18 option properties (structural)', 'beartype/_conf/_confget.py:get_is_color (validation contract)'] + [f'{p}@{report.src_hash(p)}' for p in files]
     from pyvc import model as M
     rep.trusted = ['pyvc', 'z3 5.1 / cvc5'] + M.ASSUMED_SEMANTICS + ['dict lookup identifies keys modulo ==/hash (model.eqc); tuple keys componentwise']
     rep.assumptions = ['get_is_color: resolved value abstract in the __new__ proof; its validation contract is proved separately (C17.get_is_color.post.*); sanify_conf_kwargs_is_pep484_tower replaces hint_overrides or raises BeartypeConfParamException (see C18); issue_warning_deprecated_option has no effect on the result',
